@@ -278,6 +278,8 @@ func checkC01(r *Report) {
 	// f. PARALLEL-REMAINDERS
 	nPR := parallelRemainderRule(r, p, "C01.f/PARALLEL-REMAINDERS", threeWayFns(p, "semver"))
 	r.floor("C01.f/PARALLEL-REMAINDERS", "pairs of loop-carried rests advanced by the same function in the comparators of package semver", nPR, 1)
+	nCD := classDecidesRule(r, p, "C01.g/CLASS-DECIDES")
+	r.floor("C01.g/CLASS-DECIDES", "two-string comparators of package semver that order the pairs of a class by a key of their own", nCD, 1)
 }
 
 // tiebreakRule (deny-list): the comparator's final return must not be a
